@@ -286,6 +286,47 @@ func returnsNilError(ret *ssa.Return) bool {
 	return isNilConst(last)
 }
 
+// mayReturnNilError: the returned error can be nil — a constant nil, or a computed value (a call's result handed on)
+// that the path has not established to be non-nil.
+func mayReturnNilError(ret *ssa.Return) bool {
+	if len(ret.Results) == 0 {
+		return false
+	}
+	last := retLast(ret)
+	if !isErrorType(last.Type()) {
+		return false
+	}
+	if isNilConst(last) {
+		return true
+	}
+	if _, isConst := last.(*ssa.Const); isConst {
+		return false
+	}
+	switch last.(type) {
+	case *ssa.Call, *ssa.Extract:
+	default:
+		return false // constructed errors (MakeInterface of a concrete error), globals, parameters
+	}
+	for _, cd := range edgeConds(ret.Block()) {
+		nc := normCond(cd.V, cd.Pol)
+		if bo, ok := nc.V.(*ssa.BinOp); ok && isNilConst(bo.Y) && bo.X == last {
+			if (bo.Op == token.NEQ) == nc.Pol {
+				return false // err != nil established
+			}
+		}
+	}
+	// errors.New / fmt.Errorf / status.Error(f) never return nil
+	if call, ok := last.(*ssa.Call); ok {
+		if cal := call.Call.StaticCallee(); cal != nil {
+			p, n := fnPkgPath(cal), cal.Name()
+			if p == "errors" && n == "New" || p == "fmt" && n == "Errorf" || strings.HasSuffix(p, "grpc/status") && (n == "Error" || n == "Errorf") {
+				return false
+			}
+		}
+	}
+	return true
+}
+
 func isErrorType(t types.Type) bool {
 	return types.Identical(t, types.Universe.Lookup("error").Type())
 }
